@@ -31,6 +31,9 @@ pub struct RecCase {
     pub shape: Shape,
     /// non-recursive work wrapped around each recursive step (indices into WRAPS)
     pub work: Vec<u8>,
+    /// completed (non-nested) work done in every frame before the recursive step (indices into PRES)
+    #[serde(default)]
+    pub pre: Vec<u8>,
     pub limit: u16,
     /// Some(d): the recursion stops by itself after d steps
     pub bounded: Option<u16>,
@@ -49,8 +52,23 @@ const WRAPS: [(&str, &str); 8] = [
     ("{% with a = 1, b = [d, d]|length %}{% if b %}", "{% endif %}{% endwith %}"),
 ];
 
+/// evaluations that finish before the frame recurses (a finished macro call, include, call block)
+const PRES: [&str; 5] = [
+    "{{ hlp() }}",
+    "{% include 'leaf.txt' %}",
+    "{% call(dd) via(0) %}x{% endcall %}",
+    "{% set z = hlp() %}",
+    "{{ hlp() }}{{ hlp() }}",
+];
+
+const HELPERS: &str = "{% macro hlp() %}h{% endmacro %}{% macro via(d) %}{{ caller(d) }}{% endmacro %}";
+
 fn wrap(c: &RecCase, inner: &str) -> String {
-    let mut s = inner.to_string();
+    let mut s = String::new();
+    for p in &c.pre {
+        s.push_str(PRES[*p as usize % PRES.len()]);
+    }
+    s.push_str(inner);
     for w in &c.work {
         let (a, b) = WRAPS[*w as usize % WRAPS.len()];
         s = format!("{a}{s}{b}");
@@ -81,7 +99,8 @@ pub fn build(c: &RecCase) -> (String, Vec<(String, String)>, Value) {
                 }
             };
             // every template defines all node macros it may need, so that any edge kind works
-            let mut defs = String::from("{% macro via(d) %}{{ caller(d) }}{% endmacro %}");
+            let mut defs = String::from(HELPERS);
+            comps.push(("leaf.txt".to_string(), "l".to_string()));
             for j in 0..n {
                 let body = wrap(c, &format!("{guard_open}{}{guard_close}", call_next(j, edges[j])));
                 defs.push_str(&format!("{{% macro n{j}(d) %}}.{body}{{% endmacro %}}"));
@@ -106,30 +125,30 @@ pub fn build(c: &RecCase) -> (String, Vec<(String, String)>, Value) {
             }
             let inner = wrap(c, "{{ loop(x) if x is sequence else x }}");
             (
-                format!("{{% for x in data recursive %}}{inner}{{% endfor %}}"),
-                vec![],
+                format!("{HELPERS}{{% for x in data recursive %}}{inner}{{% endfor %}}"),
+                vec![("leaf.txt".to_string(), "l".to_string())],
                 Value::from_pairs([("data", data), ("d", Value::from(d0))]),
             )
         }
         Shape::SelfBlock => {
             let inner = wrap(c, &format!("{guard_open}{{% set d = d - 1 %}}{{{{ self.b() }}}}{guard_close}"));
             (
-                format!("{{% block b %}}.{inner}{{% endblock %}}"),
-                vec![],
+                format!("{HELPERS}{{% block b %}}.{inner}{{% endblock %}}"),
+                vec![("leaf.txt".to_string(), "l".to_string())],
                 Value::from_pairs([("d", Value::from(d0))]),
             )
         }
         Shape::SuperChain(n) => {
             let n = (*n).max(1) as usize;
-            let mut comps = vec![];
+            let mut comps = vec![("leaf.txt".to_string(), "l".to_string())];
             for j in 1..n {
                 let inner = wrap(c, "{{ super() }}");
-                comps.push((format!("t{j}.txt"), format!("{{% extends 't{}.txt' %}}{{% block b %}}{j}{inner}{{% endblock %}}", j + 1)));
+                comps.push((format!("t{j}.txt"), format!("{{% extends 't{}.txt' %}}{HELPERS}{{% block b %}}{j}{inner}{{% endblock %}}", j + 1)));
             }
-            comps.push((format!("t{n}.txt"), "{% block b %}root{% endblock %}".to_string()));
+            comps.push((format!("t{n}.txt"), format!("{HELPERS}{{% block b %}}root{{% endblock %}}")));
             let inner = wrap(c, "{{ super() }}");
             (
-                format!("{{% extends 't1.txt' %}}{{% block b %}}0{inner}{{% endblock %}}"),
+                format!("{{% extends 't1.txt' %}}{HELPERS}{{% block b %}}0{inner}{{% endblock %}}"),
                 comps,
                 Value::from_pairs([("d", Value::from(d0))]),
             )
@@ -215,14 +234,16 @@ impl Part for Recursion {
         (
             shape,
             prop::collection::vec(0u8..8, 0..4),
+            prop_oneof![2 => Just(vec![]), 3 => prop::collection::vec(0u8..5, 1..3)],
             prop_oneof![2 => Just(500u16), 2 => 1u16..500, 1 => crate::runner::one_of(&[1u16, 2, 3, 10, 50, 499])],
             prop_oneof![3 => Just(None), 1 => (1u16..700).prop_map(Some)],
             any::<bool>(),
             any::<bool>(),
         )
-            .prop_map(|(shape, work, limit, bounded, debug, small)| RecCase {
+            .prop_map(|(shape, work, pre, limit, bounded, debug, small)| RecCase {
                 shape,
                 work,
+                pre,
                 limit,
                 bounded,
                 debug,
@@ -299,7 +320,7 @@ impl Part for Recursion {
     }
 
     fn show(c: &RecCase) -> serde_json::Value {
-        serde_json::json!({"shape": c.shape, "work": c.work, "limit": c.limit, "bounded": c.bounded, "stack_kib": c.stack_kib, "main": build(c).0})
+        serde_json::json!({"shape": c.shape, "work": c.work, "pre": c.pre, "limit": c.limit, "bounded": c.bounded, "stack_kib": c.stack_kib, "main": build(c).0})
     }
 
     fn shrink_candidates(c: &RecCase) -> Vec<RecCase> {
@@ -307,6 +328,11 @@ impl Part for Recursion {
         for i in 0..c.work.len() {
             let mut x = c.clone();
             x.work.remove(i);
+            out.push(x);
+        }
+        for i in 0..c.pre.len() {
+            let mut x = c.clone();
+            x.pre.remove(i);
             out.push(x);
         }
         if let Shape::Cycle(e) = &c.shape {
@@ -336,7 +362,7 @@ pub fn replay_any(ctx: &mut Ctx, rf: &ReplayFile) -> bool {
 }
 
 pub fn run(ctx: &mut Ctx) {
-    ctx.rule = "recursive program shapes: directed cycles of length 1-4 over {macro call, call block / caller(), include, import, from-import} edges (every template of the cycle defines every node so that all edge kinds mix), recursive for-loops over data nested 1-900 deep, self.block() recursion, inheritance chains of 2-450 templates whose blocks call super(); each recursive step wrapped in 0-3 layers of non-recursive work (with, for, if, filter block, set-block, autoescape, nested combinations); unbounded or stopping by itself after 1-700 steps; recursion_limit 500, random in [1,500) and small values; debug info on/off; run in worker processes of the debug (opt-level 0) and release builds on 2 MiB and 8 MiB threads. Oracle: the worker survives; unbounded shapes return an error whose chain contains `recursion limit exceeded` (never Ok), bounded ones return Ok or that error, never another error; if limit L gives the limit error so do L/2 and L-1. Non-trivial: at least two edge kinds or two layers of frame work. Distinct by case.".into();
+    ctx.rule = "recursive program shapes: directed cycles of length 1-4 over {macro call, call block / caller(), include, import, from-import} edges (every template of the cycle defines every node so that all edge kinds mix), recursive for-loops over data nested 1-900 deep, self.block() recursion, inheritance chains of 2-450 templates whose blocks call super(); each recursive step wrapped in 0-3 layers of non-recursive work (with, for, if, filter block, set-block, autoescape, nested combinations) and preceded in its frame by 0-2 completed evaluations (a finished helper macro call, include, call block, macro call in a set); unbounded or stopping by itself after 1-700 steps; recursion_limit 500, random in [1,500) and small values; debug info on/off; run in worker processes of the debug (opt-level 0) and release builds on 2 MiB and 8 MiB threads. Oracle: the worker survives; unbounded shapes return an error whose chain contains `recursion limit exceeded` (never Ok), bounded ones return Ok or that error, never another error; if limit L gives the limit error so do L/2 and L-1. Non-trivial: at least two edge kinds or two layers of frame work. Distinct by case.".into();
     ctx.assumptions = vec![
         "the listed block-call finding (self.block() / deep super() chains in debug builds on 2 MiB stacks) is keyed on crash signatures that name the block edge; other shapes are not tolerated".into(),
     ];
